@@ -52,7 +52,7 @@ Proof.
     apply (ex_derive_continuous (sfR ab c)). exists (sfR' ab t). apply sfR_derive.
   - rewrite Rmin_left, Rmax_right in Hz by lra.
     assert (sfR' ab z <= 0) by (apply Hd; lra).
-    assert (sfR' ab z * (y - x) <= 0) by nra. lra.
+    assert (0 <= (- sfR' ab z) * (y - x)) by (apply Rmult_le_pos; lra). lra.
 Qed.
 
 (* per-row statements (proved in the generated files Sf/FormFactPd*_gen.v, one lemma per row) *)
